@@ -141,7 +141,10 @@ fn called_params(p: &Program) -> std::collections::BTreeSet<BId> {
         if !seen.insert(b) {
             continue;
         }
-        if is_param(b) {
+        // parameters and case bindings get their type from an annotation or from the call site; a LOCAL that feeds a
+        // callee can be of unknown type too where it is called - when its initialiser is the result of a (recursive)
+        // call of a function whose return type has not been inferred yet. Both keep their annotation in clean cases.
+        if is_param(b) || matches!(p.binders[b].kind, BKind::Local) {
             out.insert(b);
         }
         if let Some(d) = deps.get(&b) {
@@ -235,7 +238,7 @@ impl Check for C08 {
         let called = called_params(&p);
         let hazard_case = index % 8 == 7 && !called.is_empty();
         let forced = called.clone();
-        let keep = move |s: AnnotSite| -> bool { !hazard_case && matches!(s, AnnotSite::Param(b) if forced.contains(&b)) };
+        let keep = move |s: AnnotSite| -> bool { !hazard_case && matches!(s, AnnotSite::Param(b) | AnnotSite::Def(b) if forced.contains(&b)) };
         let keep2 = keep.clone();
         let none = move |s: AnnotSite| keep2(s);
         if hazard_case {
